@@ -455,6 +455,25 @@ func (s *sim) body(what string, txn *lpm.Txn[uint64], tm map[string]uint64, nops
 				delete(tm, q)
 				changed = true
 			}
+		case x < 88:
+			// a single iterator taken straight after writes, with no other query in between (every query freezes the trie by
+			// itself; a query that relied on an earlier one to do so would show here), consumed only after later writes
+			q := s.genBits()
+			if s.rng.IntN(4) == 0 {
+				q = q[:s.rng.IntN(len(q)+1)]
+			}
+			all := sortedEntries(tm)
+			switch s.rng.IntN(3) {
+			case 0:
+				s.logf("%s retain bare prefix %s", what, q)
+				s.retainIter(fmt.Sprintf("%s bare prefix %s", what, q), txn.Prefix(s.keyOfBits(q)), expectPrefix(all, q))
+			case 1:
+				s.logf("%s retain bare lowerbound %s", what, q)
+				s.retainIter(fmt.Sprintf("%s bare lowerbound %s", what, q), txn.LowerBound(s.keyOfBits(q)), expectLower(all, q))
+			default:
+				s.logf("%s retain bare all", what)
+				s.retainIter(what+" bare all", txn.All(), all)
+			}
 		default:
 			s.logf("%s verify", what)
 			s.verify(what, txn, tm, 1, true)
